@@ -2,6 +2,7 @@ package props
 
 import (
 	"fmt"
+	"os"
 	"time"
 
 	"github.com/ipfs/go-cid"
@@ -387,6 +388,12 @@ func c04RealSub(name, dir string, qn, tn int) *engine.Sub {
 // c04RealSubZ: the real-clock universe with the process' local time zone set to zone and bounds `margin`
 // away from now (a verifier must compare instants; the zone it runs in is irrelevant).
 func c04RealSubZ(name, dir string, qn, tn int, zone *time.Location, margin time.Duration) *engine.Sub {
+	return c04RealSubE(name, dir, qn, tn, zone, margin, nil)
+}
+
+// c04RealSubE: evalEnv, if not nil, lists environment settings; the tokens of a case are built with the
+// environment as it is, the verdict is then taken once per setting.
+func c04RealSubE(name, dir string, qn, tn int, zone *time.Location, margin time.Duration, evalEnv [][2]string) *engine.Sub {
 	return &engine.Sub{
 		Name:   name,
 		Serial: zone != time.UTC,
@@ -513,15 +520,36 @@ func c04RealSubZ(name, dir string, qn, tn int, zone *time.Location, margin time.
 			if invalid <= 1 {
 				ctx.Nontrivial(1)
 			}
-			e1, e2 := bothVerdicts(inv, ld)
-			ctx.Eval(2)
-			ctx.Outcome(errLabel(e1))
-			for _, e := range []error{e1, e2} {
-				if dir == "sound" && e == nil && invalid > 0 {
-					ctx.Failf(cs, "real-clock/time-not-enforced@"+where, "ExecutionAllowed allowed a chain whose %s is expired / not yet active (wins=%v inv=%d iat=%d cmd=%s self-issued=%v)", where, cs.Wins, cs.Inv, cs.Iat, c04Cmds[cs.Cmd], cs.Self)
+			settings := evalEnv
+			if settings == nil {
+				settings = [][2]string{{"", ""}}
+			}
+			for _, env := range settings {
+				envTag := ""
+				restore := func() {}
+				if env[0] != "" {
+					old, had := os.LookupEnv(env[0])
+					os.Setenv(env[0], env[1])
+					envTag = "/with-" + env[0]
+					restore = func() {
+						if had {
+							os.Setenv(env[0], old)
+						} else {
+							os.Unsetenv(env[0])
+						}
+					}
 				}
-				if dir == "complete" && e != nil && invalid == 0 {
-					ctx.Failf(cs, "real-clock/denied-valid:"+errLabel(e), "ExecutionAllowed denied a chain whose tokens are all valid now (wins=%v inv=%d iat=%d): %v", cs.Wins, cs.Inv, cs.Iat, e)
+				e1, e2 := bothVerdicts(inv, ld)
+				restore()
+				ctx.Eval(2)
+				ctx.Outcome(errLabel(e1))
+				for _, e := range []error{e1, e2} {
+					if dir == "sound" && e == nil && invalid > 0 {
+						ctx.Failf(cs, "real-clock/time-not-enforced@"+where+envTag, "ExecutionAllowed allowed a chain whose %s is expired / not yet active (wins=%v inv=%d iat=%d cmd=%s self-issued=%v)", where, cs.Wins, cs.Inv, cs.Iat, c04Cmds[cs.Cmd], cs.Self)
+					}
+					if dir == "complete" && e != nil && invalid == 0 {
+						ctx.Failf(cs, "real-clock/denied-valid:"+errLabel(e)+envTag, "ExecutionAllowed denied a chain whose tokens are all valid now (wins=%v inv=%d iat=%d): %v", cs.Wins, cs.Inv, cs.Iat, e)
+					}
 				}
 			}
 		},
@@ -539,11 +567,18 @@ type c04EpochCase struct {
 func c04EpochSub() *engine.Sub {
 	return &engine.Sub{
 		Name:  "decoded-bounds-near-epoch",
-		Rule:  "well-signed delegations / invocations whose exp (or nbf) is Unix second -1, 0 or 1 (a present bound that happens to equal a zero value), decoded and probed 1 s / 1 ns before, on and after the bound and far away: a present bound is a bound; non-trivial = all",
-		Bound: func(string) string { return "{dlg.exp, dlg.nbf, inv.exp} x {-1, 0, 1} x 7 probes" },
+		Rule:  "well-signed delegations / invocations whose exp (or nbf) is Unix second -1, 0 or 1 (a present bound that happens to equal a zero value), or lies on either side of the powers of ten and two between 10^9 and 2^53-1 (incl. the present instant written in milliseconds and in microseconds: a bound is a number of SECONDS whatever its magnitude), decoded and probed 1 s / 1 ns before, on and after the bound, far away, now, and at the instants the value would denote as milli- / microseconds; non-trivial = all",
+		Bound: func(string) string { return "{dlg.exp, dlg.nbf, inv.exp} x 25 bound values x 11 probes" },
 		Gen: func(tier string, emit func(any) bool) {
 			for _, kf := range [][2]string{{"dlg", "exp"}, {"dlg", "nbf"}, {"inv", "exp"}} {
-				for _, sec := range []int64{-1, 0, 1} {
+				now := time.Now().Unix()
+				secs := []int64{-1, 0, 1,
+					// both sides of every power of ten and two at which a "this must be milliseconds / microseconds" or a
+					// 32-bit heuristic would kick in; the present instant expressed in milliseconds and microseconds
+					999_999_999, 1_000_000_000, 1<<31 - 1, 1 << 31, 1<<32 - 1, 1 << 32, 9_999_999_999, 10_000_000_000, 99_999_999_999, 100_000_000_000,
+					999_999_999_999, 1_000_000_000_000, 1_500_000_000_000, now * 1000, 9_999_999_999_999, 10_000_000_000_000,
+					999_999_999_999_999, 1_000_000_000_000_000, now * 1_000_000, 1<<53 - 1}
+				for _, sec := range secs {
 					if !emit(&c04EpochCase{kf[0], kf[1], sec}) {
 						return
 					}
@@ -589,7 +624,7 @@ func c04EpochSub() *engine.Sub {
 			ctx.States(1)
 			ctx.Nontrivial(1)
 			b := time.Unix(cs.Sec, 0)
-			for _, at := range []time.Time{b.AddDate(-50, 0, 0), b.Add(-time.Second), b.Add(-time.Nanosecond), b, b.Add(time.Nanosecond), b.Add(time.Second), b.AddDate(50, 0, 0)} {
+			for _, at := range []time.Time{b.AddDate(-50, 0, 0), b.Add(-time.Second), b.Add(-time.Nanosecond), b, b.Add(time.Nanosecond), b.Add(time.Second), b.AddDate(50, 0, 0), time.Now(), time.Unix(cs.Sec/1000, 0), time.Unix(cs.Sec/1000+1, 0), time.Unix(cs.Sec/1_000_000+1, 0)} {
 				ctx.Eval(1)
 				ctx.Trans(1)
 				got := valid(at)
@@ -733,6 +768,7 @@ func C04() *engine.Check {
 			c04RealSub("real-clock", "sound", 3, 6),
 			c04RealSubZ("real-clock-zone-west", "sound", 2, 3, time.FixedZone("verif-west", -11*3600), 2*time.Hour),
 			c04RealSubZ("real-clock-zone-east", "sound", 2, 3, time.FixedZone("verif-east", 13*3600+1800), 2*time.Hour),
+			c04RealEnvSub("real-clock-hostile-environment", "sound"),
 			longChainSub("C04"),
 			c04EpochSub(),
 			c04AcrossExpirySub(),
@@ -742,4 +778,19 @@ func C04() *engine.Check {
 			"behaviour exactly on a bound is not decided by the property (don't care)",
 		},
 	}
+}
+
+// c04RealEnvSub: the real-clock universe (chains of up to 2 links) run once per hostile environment setting -
+// variables that build tools, test tools and C libraries use to fake or fix "now", the time zone or the
+// locale. A verifier decides on the machine's clock, whatever the environment of the process says.
+func c04RealEnvSub(name, dir string) *engine.Sub {
+	envs := [][2]string{
+		{"SOURCE_DATE_EPOCH", "0"}, {"SOURCE_DATE_EPOCH", "946684800"}, {"SOURCE_DATE_EPOCH", "4102444800"}, {"SOURCE_DATE_EPOCH", "32503680000"},
+		{"FAKETIME", "@2000-01-01 00:00:00"}, {"FAKETIME", "+20y"}, {"TZ", "Pacific/Kiritimati"}, {"TZ", "UTC+12"}, {"ZONEINFO", "/nonexistent"},
+		{"LC_ALL", "tr_TR.UTF-8"}, {"LANG", "C"}, {"GO_UCAN_NOW", "946684800"}, {"UCAN_NOW", "4102444800"}, {"NOW", "0"}, {"TEST_NOW", "4102444800"},
+	}
+	sub := c04RealSubE(name, dir, 2, 2, time.UTC, c04TenYears, envs)
+	sub.Serial = true
+	sub.Rule = "[the tokens of a case are built first; the verdict is then taken once per environment setting: SOURCE_DATE_EPOCH (1970, 2000, 2100, 3000), FAKETIME, TZ, ZONEINFO, LC_ALL, LANG and four *NOW variables, set for the duration of the check] " + sub.Rule
+	return sub
 }
